@@ -310,9 +310,23 @@ def render_events(name, env, seed):
             seen["state"] = state
             return None
 
-    for W in (VmapWrapper, VmapAutoResetWrapper):
-        for Bn in (1, 3):
-            keys = jax.random.split(jax.random.PRNGKey(seed + 5), Bn)
+    def untyped(tree):       # new-style typed PRNG keys (jax.random.key) -> their raw uint32 data, for comparison
+        return jax.tree_util.tree_map(
+            lambda x: jax.random.key_data(x) if hasattr(x, "dtype") and jax.dtypes.issubdtype(x.dtype, jax.dtypes.prng_key) else x, tree)
+
+    combos = [(W, Bn, "legacy") for W in (VmapWrapper, VmapAutoResetWrapper) for Bn in (1, 3)]
+    if name in ("Snake", "Maze", "Game2048", "LevelBasedForaging"):      # environments that run on typed keys as well
+        combos += [(W, Bn, "typed") for W in (VmapWrapper, VmapAutoResetWrapper) for Bn in (1, 2)]
+    for W, Bn, kind in combos:
+        if True:
+            if kind == "legacy":
+                keys = jax.random.split(jax.random.PRNGKey(seed + 5), Bn)
+            else:       # a batch of typed keys has a 1-D key array (shape (B,)), a single typed key is 0-d
+                try:
+                    keys = jax.random.split(jax.random.key(seed + 5), Bn)
+                    jax.jit(jax.vmap(env.reset))(keys)
+                except Exception:  # noqa: BLE001  (this environment / jax version does not take typed keys: nothing to judge)
+                    continue
             rec = Rec(env)
             try:
                 w = W(rec)
@@ -327,8 +341,13 @@ def render_events(name, env, seed):
                             "is_lane0": False, "is_other_lane": False, "error": type(e).__name__})
                 continue
             called = "state" in seen
-            is0 = called and eq(seen["state"], slice_tree(st, 0))
-            other = called and Bn > 1 and any(eq(seen["state"], slice_tree(st, j)) for j in range(1, Bn)) and not is0
+            st_u = untyped(st)
+            seen_u = untyped(seen["state"]) if called else None
+            try:
+                is0 = called and eq(seen_u, slice_tree(st_u, 0))
+                other = called and Bn > 1 and any(eq(seen_u, slice_tree(st_u, j)) for j in range(1, Bn)) and not is0
+            except Exception:  # noqa: BLE001  (what reached render does not even have the shape of one state)
+                is0, other = False, False
             out.append({"k": "render", "env": name, "wrapper": W.__name__, "B": Bn, "called": bool(called),
                         "is_lane0": bool(is0), "is_other_lane": bool(other), "error": "none"})
     return out
